@@ -15,12 +15,11 @@ import (
 )
 
 type vC17Step struct {
-	A   string         `json:"a"`
-	Tok map[string]any `json:"tok"`
+	A    string           `json:"a"`
+	Toks []map[string]any `json:"toks"`
 }
 type vC17Beh struct {
 	Th    any        `json:"th"`
-	Fo    bool       `json:"fo"`
 	Steps []vC17Step `json:"steps"`
 }
 
@@ -69,28 +68,41 @@ func TestVerif_C17_Checkpointer(t *testing.T) {
 			sort.Slice(p, func(i, j int) bool { return fmt.Sprint(p[i]) < fmt.Sprint(p[j]) })
 			return e, p
 		}
-		tw.Emit(vObj{"a": "Reset", "th": vInt(b.Th), "fo": b.Fo, "beh": bi})
+		tw.Emit(vObj{"a": "Reset", "th": vInt(b.Th), "beh": bi})
 		pendingIDRev := map[SequenceID][]IDAndRev{}
 		for si, st := range b.Steps {
 			switch st.A {
 			case "Expect":
-				s := mk(st.Tok)
+				toks := []SequenceID{}
+				rks := [][]int{}
+				for _, m := range st.Toks {
+					toks = append(toks, mk(m))
+					rks = append(rks, rk(mk(m)))
+				}
 				if rnd.Intn(2) == 0 {
-					c.AddExpectedSeqs(s)
-				} else {
+					c.AddExpectedSeqs(toks...)
+				} else if len(toks) == 1 {
+					// the id/rev map form appends in map order, so it is only order-deterministic for one entry
 					ir := IDAndRev{DocID: fmt.Sprintf("d%d_%d", bi, si), RevID: "1-a"}
-					c.AddExpectedSeqIDAndRevs(map[IDAndRev]SequenceID{ir: s})
-					pendingIDRev[s] = append(pendingIDRev[s], ir)
+					c.AddExpectedSeqIDAndRevs(map[IDAndRev]SequenceID{ir: toks[0]})
+					pendingIDRev[toks[0]] = append(pendingIDRev[toks[0]], ir)
+				} else {
+					c.AddExpectedSeqs(toks...)
 				}
 				e, p := state()
-				tw.Emit(vObj{"a": "Expect", "tok": rk(s), "E": e, "P": p})
+				tw.Emit(vObj{"a": "Expect", "toks": rks, "E": e, "P": p})
 			case "AlreadyKnown":
-				s := mk(st.Tok)
-				c.AddAlreadyKnownSeq(s)
+				toks := []SequenceID{}
+				rks := [][]int{}
+				for _, m := range st.Toks {
+					toks = append(toks, mk(m))
+					rks = append(rks, rk(mk(m)))
+				}
+				c.AddAlreadyKnownSeq(toks...)
 				e, p := state()
-				tw.Emit(vObj{"a": "AlreadyKnown", "tok": rk(s), "E": e, "P": p})
+				tw.Emit(vObj{"a": "AlreadyKnown", "toks": rks, "E": e, "P": p})
 			case "Processed":
-				s := mk(st.Tok)
+				s := mk(st.Toks[0])
 				if irs := pendingIDRev[s]; len(irs) > 0 && rnd.Intn(2) == 0 {
 					pendingIDRev[s] = irs[1:]
 					if rnd.Intn(2) == 0 {
@@ -102,7 +114,7 @@ func TestVerif_C17_Checkpointer(t *testing.T) {
 					c.AddProcessedSeq(s)
 				}
 				e, p := state()
-				tw.Emit(vObj{"a": "Processed", "tok": rk(s), "E": e, "P": p})
+				tw.Emit(vObj{"a": "Processed", "toks": [][]int{rk(s)}, "E": e, "P": p})
 			case "Tick":
 				c.lock.Lock()
 				safe := c._updateCheckpointLists()
